@@ -1415,6 +1415,13 @@ func (r *reader) run(ctx context.Context, offset int64) {
 						log.Printf("the kafka reader is reading before the first offset for partition %d of %s, skipping from offset %d to %d (%d messages)", r.partition, r.topic, toHumanOffset(offset), first, first-offset)
 					})
 					offset, errcount = first, 0
+					// The connection fetches from its own offset, which is still
+					// the one that is out of range: move it as well, otherwise
+					// every retry gets the same error.
+					if _, err := conn.Seek(offset, SeekAbsolute|SeekDontCheck); err != nil {
+						conn.Close()
+						break readLoop
+					}
 					continue // retry immediately so we don't keep falling behind due to the backoff
 
 				case offset < last:
